@@ -393,6 +393,95 @@ def build(ctx):
         existing_origin == new_origin ==> r == true, // @OBL tie_break::same_origin [] (from the code comment, not from any property) two connections of the same origin: the newer replaces the older
 ''', body_prefix='\n        broadcast use axiom_peer_id_order;\n')
     t += '}\n'
+
+    # ---- the lock-protected handle: ActivePeers(Arc<RwLock<ActivePeersInner>>) ------------------------------------
+    # X8 lock lifting: Arc<RwLock<T>> becomes T, `self.0.read().unwrap()` a shared borrow, `self.0.write().unwrap()` a
+    # unique borrow.  The wrappers then only borrow-check if every mutation goes through ONE write-lock acquisition.
+    t += """
+// ---------- trusted stand-in: Arc<RwLock<ActivePeersInner>> (mutual exclusion of std::sync::RwLock is assumed) ----------
+pub struct ActivePeers(pub ActivePeersInner);
+impl ActivePeers {
+    pub fn inner(&self) -> (r: &ActivePeersInner) ensures *r == self.0 { &self.0 }
+    pub fn inner_mut(&mut self) -> (r: &mut ActivePeersInner) ensures *r == old(self).0, *final(r) == final(self).0 { &mut self.0 }
+"""
+    W = 'impl ActivePeers :: fn '
+    t += C.fn(CM, W + 'subscribe', 'ActivePeers::subscribe', ['C04'], ret='r', rewrites=[('X5', 'broadcast::Receiver<PeerEvent>', 'Receiver', 1)], spec="""
+    ensures
+        r.0.start@ == self.0.peer_event_sender.log@.len() && r.1@.to_set() =~= self.0.connections@.dom() && r.1@.no_duplicates(), // @OBL ActivePeers::subscribe::delegates [C04] subscribe() takes snapshot and receiver under one lock acquisition
+""")
+    t += C.fn(CM, W + 'get', 'ActivePeers::get', ['C04', 'C09'], ret='r', spec="""
+    ensures
+        r == (if self.0.connections@.contains_key(*peer_id) { Some(self.0.connections@[*peer_id]) } else { None::<Connection> }), // @OBL ActivePeers::get::delegates [C04,C09] get() is the lookup in the locked set
+""")
+    t += C.fn(CM, W + 'len', 'ActivePeers::len', ['C04', 'C10'], ret='r', spec="""
+    ensures
+        r == self.0.connections@.dom().len(), // @OBL ActivePeers::len::delegates [C04,C10] len() is the size of the locked set
+""")
+    t += C.fn(CM, W + 'remove', 'ActivePeers::remove', ['C04', 'C09'], sig_rewrites=[('&self', '&mut self')], spec="""
+    ensures
+        final(self).0.view() =~~= rm_spec(old(self).0.view(), *peer_id, reason), // @OBL ActivePeers::remove::delegates [C04,C09] remove() is exactly the inner transition, under one write-lock acquisition
+""")
+    t += C.fn(CM, W + 'remove_with_stable_id', 'ActivePeers::remove_with_stable_id', ['C04', 'C05'], sig_rewrites=[('&self', '&mut self')], spec="""
+    ensures
+        final(self).0.view() =~~= rm_sid_spec(old(self).0.view(), peer_id, stable_id, reason), // @OBL ActivePeers::remove_with_stable_id::delegates [C04,C05] remove_with_stable_id() is exactly the inner transition, under one write-lock acquisition
+""")
+    t += C.fn(CM, W + 'add', 'ActivePeers::add', ['C04', 'C05', 'C03'], ret='r', sig_rewrites=[('&self', '&mut self')], spec="""
+    ensures
+        ({
+            let pre = old(self).0.view();
+            let c = new_connection;
+            (final(self).0.view() =~~= add_spec(pre, c, true).0 && r == add_spec(pre, c, true).1)
+            || (final(self).0.view() =~~= add_spec(pre, c, false).0 && r == add_spec(pre, c, false).1)
+        }), // @OBL ActivePeers::add::delegates [C04,C03] add() is exactly the inner transition, under one write-lock acquisition
+        ({
+            let pre = old(self).0.view();
+            let c = new_connection;
+            pre.conns.contains_key(c.peer) && pre.conns[c.peer].orig != c.orig ==> ({
+                let post = add_spec(pre, c, keep_new_mixed(*own_peer_id, c.peer, c.orig));
+                final(self).0.connections@ =~= post.0.conns && final(self).0.closed@ =~= post.0.closed && r == post.1
+            })
+        }), // @OBL ActivePeers::add::delegates_mixed [C05] the handle passes the node's own id and the new connection through unchanged
+""")
+    t += '}\n'
+
+    # ---- quinn error -> DisconnectReason (C09) and the tail of InboundRequestHandler::start (C04) ----------------
+    t += """
+// ---------- trusted stand-in: quinn::ConnectionError (payloads opaque) ----------
+pub struct Opaque;
+pub enum ConnectionError { VersionMismatch, TransportError(Opaque), ConnectionClosed(Opaque), ApplicationClosed(Opaque), Reset, TimedOut, LocallyClosed, CidsExhausted }
+pub open spec fn reason_of(e: ConnectionError) -> DisconnectReason {
+    match e {
+        ConnectionError::VersionMismatch => DisconnectReason::VersionMismatch,
+        ConnectionError::TransportError(_) => DisconnectReason::TransportError,
+        ConnectionError::ConnectionClosed(_) => DisconnectReason::ConnectionClosed,
+        ConnectionError::ApplicationClosed(_) => DisconnectReason::ApplicationClosed,
+        ConnectionError::Reset => DisconnectReason::Reset,
+        ConnectionError::TimedOut => DisconnectReason::TimedOut,
+        ConnectionError::LocallyClosed => DisconnectReason::LocallyClosed,
+        ConnectionError::CidsExhausted => DisconnectReason::TransportError,
+    }
+}
+impl DisconnectReason {
+"""
+    t += C.fn(P.TYPES, 'impl DisconnectReason :: fn from_quinn_error', 'DisconnectReason::from_quinn_error', ['C09'], ret='r', spec="""
+    ensures
+        r == reason_of(*error), // @OBL DisconnectReason::from_quinn_error::mapping [C09] every way a connection can end is mapped to its documented reason (total)
+""")
+    t += '}\n'
+    t += """
+// ---------- trusted stand-in: tokio::task::JoinSet (only shutdown() is used in the tail) ----------
+pub struct JoinSet;
+impl JoinSet { #[verifier::external_body] pub async fn shutdown(&mut self) { unimplemented!() } }
+"""
+    t += C.lifted('crates/anemo/src/network/request_handler.rs', 'impl InboundRequestHandler :: fn start', 'InboundRequestHandler::start::tail',
+                  ['C04', 'C05', 'C09'], anchor='let close_reason = loop', kind='tail', name='inbound_request_handler_start_tail', is_async=True,
+                  params='active_peers: &mut ActivePeers, connection: &Connection, close_reason: ConnectionError, inflight_requests: &mut JoinSet',
+                  rewrites=[('X10', 'self.active_peers', 'active_peers', None), dict(rule='X10', pattern='self.connection', repl='connection', optional=True),
+                            dict(rule='X5', pattern='crate::types::DisconnectReason', repl='DisconnectReason', optional=True)],
+                  spec="""
+    ensures
+        final(active_peers).0.view() =~~= rm_sid_spec(old(active_peers).0.view(), connection.peer, connection.sid, reason_of(close_reason)), // @OBL InboundRequestHandler::start::tail::removes_own_entry_only [C04,C05,C09] when a connection's handler exits it removes exactly its own entry (matched by stable id) with the mapped reason; a replaced connection's exit changes nothing
+""")
     t += P.FOOTER
     return t
 
